@@ -6,7 +6,7 @@
 From Coq Require Import ZArith List.
 From V Require Import Valid.Hier Valid.Walk Valid.FlatRegion Valid.Run.
 From Coq Require Import Lia.
-From V Require Import Model.Pipe Model.PipeBounded Model.PipeBounded4.
+From V Require Import Model.Pipe Model.PipeBounded Model.PipeBounded4 Model.Graph Model.Edits Model.JoinPath.
 
 Theorem C01_checker_sound :
   forall rw g h, c01_check rw g h = true -> PathEq rw g h.
@@ -48,3 +48,23 @@ Proof.
   - split; apply B2.
 Qed.
 Print Assumptions C01_pipeline_model_le4.
+
+(* the first stage, for ALL graphs (no bound): closing the graph keeps every execution path.
+   Over the model Edits.join_returns (tied to SCFG.join_returns by the order-exact correspondence
+   of C14 and by the pipeline model): for every graph of original blocks with distinct names, whose
+   targets exist and which has a unique entry, the flat walk of the closed graph passes through the
+   original blocks exactly as the input under every decision list *)
+Theorem C01_closing_preserves_paths :
+  forall g top fresh en g',
+    Input g top fresh -> oentry (og g) = Some en -> join_returns g fresh 3 = Ok g' ->
+    PathEq false (og g) (ehier top g').
+Proof. exact join_returns_path_eq. Qed.
+Print Assumptions C01_closing_preserves_paths.
+
+Import ListNotations.
+(* non-vacuity: 1 -> (2, 3), 2 and 3 return; fresh name 9, top region 8: the graph is closed and its
+   hypotheses hold (evaluated), and the verified checker agrees on the result *)
+Example C01_closing_example :
+  let g := [(1, mkE [2; 3] [] (EPlain 100)); (2, mkE [] [] (EPlain 100)); (3, mkE [] [] (EPlain 100))]%Z in
+  exists g', join_returns g 9%Z 3%Z = Ok g' /\ oentry (og g) = Some 1%Z /\ c01_check false (og g) (ehier 8%Z g') = true.
+Proof. eexists. split; [vm_compute; reflexivity|]. split; vm_compute; reflexivity. Qed.
